@@ -113,6 +113,15 @@ class SymExprScenario(explore.Scenario):
         w.shadow = new_shadow
         e = w.objs["B2"].symbolic_expressions.get(1)
         w.objs["EX"] = e
+        # the expression values offered to the operations must refer to the
+        # LOADED symbol: the old ones would drag the whole pre-load graph
+        # (unnamed, in hash order) into the state fingerprint
+        g = w.g
+        y1 = w.objs["Y1"]
+        A = g.SymbolicExpression.Attribute
+        w.objs["E1"] = g.SymAddrConst(1, y1, {A.GOT})
+        w.objs["E2"] = g.SymAddrAddr(2, 3, y1, y1)
+        w.objs["E3"] = g.SymAddrConst(1, y1, {A.GOT})
 
     def ops(self, w):
         if self.index_focus:
